@@ -6,12 +6,17 @@ import (
 	"errors"
 	"fmt"
 
+	"github.com/google/uuid"
 	"github.com/nuts-foundation/go-did/did"
 	"github.com/nuts-foundation/go-did/vc"
 )
 
 //verif:stub github.com/nuts-foundation/nuts-node/vcr/pe.resolveCredential => hResolveCredential
 //verif:stub github.com/nuts-foundation/nuts-node/vcr/credential.PresentationSigner => hPresentationSigner
+//verif:stub github.com/google/uuid.New => hUUIDNew
+
+// hUUIDNew: the submission id is irrelevant here (uuid.New reads crypto/rand through a package-level reader).
+func hUUIDNew() uuid.UUID { return uuid.UUID{4: 0x40, 6: 0x80} }
 
 // ---- the envelope as a list of credentials ---------------------------------------------------------
 // Envelope parsing, jsonpath evaluation and credential decoding are out of scope. The parsed envelope
@@ -141,15 +146,27 @@ func H12e() {
 	nd := vLen(0, vParam("d", 2))
 	vTag("with_requirements")
 	withReqs := vBool()
-	def := hGenDefinition(nd, withReqs, vParam("reqs", 1), vParam("shapes", 3), vParam("nest", 0), 0)
+	vTag("mode")
+	mode := vChoice(3)
+	var def PresentationDefinition
+	if mode == 1 {
+		// forged: Validate compares the resolved map with what matching selects; matching over all definitions
+		// is H12d/honest mode, so a small family of definitions suffices here
+		hAllInGroupA = vParam("fgroups", 0) == 0
+		def = hGenDefinition(nd, withReqs, 1, vParam("fshapes", 2), 0, 0)
+	} else {
+		def = hGenDefinition(nd, withReqs, vParam("reqs", 1), vParam("shapes", 3), vParam("nest", 0), 0)
+	}
 	for _, r := range def.SubmissionRequirements {
 		if hPanicsToday(r) {
 			vClass("pick without count and max")
 			break
 		}
 	}
-	vTag("mode")
-	switch vChoice(3) {
+	if nd == 0 && withReqs {
+		vClass("submission requirements without input descriptors")
+	}
+	switch mode {
 	case 0: // honest wallet
 		vCover("honest")
 		nv := vLen(0, vParam("v", 2))
@@ -195,21 +212,26 @@ func H12e() {
 		sub := PresentationSubmission{Id: "s", DefinitionId: def.Id}
 		nm := vLen(0, nd+1)
 		for k := 0; k < nm; k++ {
+			// id, path and format stay symbolic (strings of fixed length with symbolic characters), so that
+			// the engine only distinguishes the cases the code under test distinguishes
 			m := InputDescriptorMappingObject{}
-			vTag("map_id")
-			m.Id = hDescIDs[vChoice(nd+1)] // one more than there are descriptors: an unknown id
-			vTag("map_path")               // nv+1: "$.verifiableCredential" ; nv+2 would be out of range
-			if pi := vChoice(nv + 2); pi <= nv {
-				m.Path = fmt.Sprintf("$.verifiableCredential[%d]", pi)
+			vTag("map_id") // 0..nd-1: a descriptor of the definition, nd: an unknown id
+			m.Id = string([]byte{'d', byte('0' + vRange(0, nd))})
+			if nv == 1 {
+				vTag("map_path_unresolvable") // "$.verifiableCredential" or something that does not resolve
+				last := byte(vIte(vBool(), 'x', 'l'))
+				m.Path = "$.verifiableCredentia" + string([]byte{last})
 			} else {
-				m.Path = "$.verifiableCredential"
+				vTag("map_path_index") // 0..nv-1: a presented credential, nv: out of range
+				m.Path = "$.verifiableCredential[" + string([]byte{byte('0' + vRange(0, nv))}) + "]"
 			}
 			vTag("map_format_jwt")
-			if vBool() {
-				m.Format = vc.JWTCredentialProofFormat
-			} else {
-				m.Format = vc.JSONLDCredentialProofFormat
+			jwt := vBool()
+			f := make([]byte, len(vc.JWTCredentialProofFormat)) // ldp_vc / jwt_vc: same length
+			for i := range f {
+				f[i] = byte(vIte(jwt, int(vc.JWTCredentialProofFormat[i]), int(vc.JSONLDCredentialProofFormat[i])))
 			}
+			m.Format = string(f)
 			sub.DescriptorMap = append(sub.DescriptorMap, m)
 		}
 		vTag("signer_fails")
